@@ -49,6 +49,7 @@ impl Stdio {
 pub struct Command {
     program: String,
     args: Vec<String>,
+    envs: Vec<(String, String)>,
     stdin: StdioKind,
     stdout: StdioKind,
     stderr: StdioKind,
@@ -60,8 +61,13 @@ struct Inner {
     writer_closed: bool,
     reader_closed: bool,
     exited: bool,
-    out: Vec<u8>,
-    err: Vec<u8>,
+    /// Bytes the child has written to stdout/stderr that the parent has not read yet (bounded like a kernel pipe).
+    out: VecDeque<u8>,
+    err: VecDeque<u8>,
+    out_cap: usize,
+    /// The parent still holds the read end.
+    out_open: bool,
+    err_open: bool,
     status_raw: i32,
 }
 
@@ -105,6 +111,7 @@ impl Command {
         Command {
             program: program.as_ref().to_string_lossy().into_owned(),
             args: vec![],
+            envs: vec![],
             stdin: StdioKind::Inherit,
             stdout: StdioKind::Inherit,
             stderr: StdioKind::Inherit,
@@ -125,6 +132,45 @@ impl Command {
             self.arg(a);
         }
         self
+    }
+
+    /// Environment and working directory do not influence the simulated prover; accepted and recorded.
+    pub fn env<K: AsRef<OsStr>, V: AsRef<OsStr>>(&mut self, key: K, val: V) -> &mut Command {
+        self.envs.push((key.as_ref().to_string_lossy().into_owned(), val.as_ref().to_string_lossy().into_owned()));
+        self
+    }
+
+    pub fn envs<I, K, V>(&mut self, vars: I) -> &mut Command
+    where
+        I: IntoIterator<Item = (K, V)>,
+        K: AsRef<OsStr>,
+        V: AsRef<OsStr>,
+    {
+        for (k, v) in vars {
+            self.env(k, v);
+        }
+        self
+    }
+
+    pub fn env_remove<K: AsRef<OsStr>>(&mut self, _key: K) -> &mut Command {
+        self
+    }
+
+    pub fn env_clear(&mut self) -> &mut Command {
+        self.envs.clear();
+        self
+    }
+
+    pub fn current_dir<P: AsRef<std::path::Path>>(&mut self, _dir: P) -> &mut Command {
+        self
+    }
+
+    pub fn get_program(&self) -> &OsStr {
+        OsStr::new(&self.program)
+    }
+
+    pub fn status(&mut self) -> io::Result<ExitStatus> {
+        self.spawn()?.wait()
     }
 
     pub fn stdin<T: Into<Stdio>>(&mut self, cfg: T) -> &mut Command {
@@ -186,8 +232,11 @@ impl Command {
                 writer_closed: self.stdin != StdioKind::Piped,
                 reader_closed: false,
                 exited: false,
-                out: vec![],
-                err: vec![],
+                out: VecDeque::new(),
+                err: VecDeque::new(),
+                out_cap: 65536,
+                out_open: self.stdout == StdioKind::Piped,
+                err_open: self.stderr == StdioKind::Piped,
                 status_raw: 0,
             }),
             cv: Condvar::new(),
@@ -340,11 +389,49 @@ fn child_main(ord: usize, sh: Arc<Shared>, early: Option<(usize, Vec<u8>, Exit)>
         }
     });
 
+    // Write stdout, then stderr, through pipes of kernel size: a child that prints more than the parent
+    // reads blocks, exactly like a real prover whose parent polls without draining the pipes.
+    let mut blocked_on_output = false;
+    for (is_err, data) in [(false, &outcome.stdout), (true, &outcome.stderr)] {
+        let mut pos = 0;
+        while pos < data.len() {
+            let mut g = sh.m.lock().unwrap();
+            loop {
+                let (len, open) = if is_err { (g.err.len(), g.err_open) } else { (g.out.len(), g.out_open) };
+                if !open || len < g.out_cap {
+                    break;
+                }
+                blocked_on_output = true;
+                g = sh.cv.wait(g).unwrap();
+            }
+            let open = if is_err { g.err_open } else { g.out_open };
+            if !open {
+                // nobody will ever read this stream (not a pipe, or the read end is gone)
+                break;
+            }
+            let space = g.out_cap - if is_err { g.err.len() } else { g.out.len() };
+            let n = space.min(data.len() - pos);
+            if is_err {
+                g.err.extend(&data[pos..pos + n]);
+            } else {
+                g.out.extend(&data[pos..pos + n]);
+            }
+            pos += n;
+            sh.cv.notify_all();
+        }
+    }
+    if blocked_on_output {
+        state::with(|s| {
+            s.children[ord].output_blocked = true;
+            s.event(|| format!("child #{ord} blocked on a full output pipe"));
+        });
+    }
     let mut g = sh.m.lock().unwrap();
-    g.out = outcome.stdout;
-    g.err = outcome.stderr;
-    g.status_raw = outcome.exit.raw();
-    g.exited = true;
+    if !g.exited {
+        // (a killed child keeps the status the kill gave it)
+        g.status_raw = outcome.exit.raw();
+        g.exited = true;
+    }
     sh.cv.notify_all();
 }
 
@@ -447,15 +534,38 @@ impl Drop for ChildStdin {
 
 impl io::Read for ChildPipeOut {
     fn read(&mut self, buf: &mut [u8]) -> io::Result<usize> {
+        if buf.is_empty() {
+            return Ok(0);
+        }
         let mut g = self.sh.m.lock().unwrap();
-        while !g.exited {
+        loop {
+            let empty = if self.is_err { g.err.is_empty() } else { g.out.is_empty() };
+            if !empty || g.exited {
+                break;
+            }
             g = self.sh.cv.wait(g).unwrap();
         }
-        let src = if self.is_err { &g.err } else { &g.out };
-        let n = buf.len().min(src.len() - self.pos);
-        buf[..n].copy_from_slice(&src[self.pos..self.pos + n]);
+        let q = if self.is_err { &mut g.err } else { &mut g.out };
+        let n = buf.len().min(q.len());
+        for (i, b) in q.drain(..n).enumerate() {
+            buf[i] = b;
+        }
         self.pos += n;
+        self.sh.cv.notify_all();
         Ok(n)
+    }
+}
+
+impl Drop for ChildPipeOut {
+    fn drop(&mut self) {
+        if let Ok(mut g) = self.sh.m.lock() {
+            if self.is_err {
+                g.err_open = false;
+            } else {
+                g.out_open = false;
+            }
+            self.sh.cv.notify_all();
+        }
     }
 }
 
@@ -505,17 +615,49 @@ impl Child {
         if exited { self.wait_exited().map(Some) } else { Ok(None) }
     }
 
+    /// SIGKILL: the child stops wherever it is; its pending output stays readable, it exits with signal 9.
     pub fn kill(&mut self) -> io::Result<()> {
+        let ord = self.ord;
+        let mut g = self.sh.m.lock().unwrap();
+        if !g.exited {
+            g.exited = true;
+            g.status_raw = 9;
+            g.reader_closed = true;
+            g.out_open = false;
+            g.err_open = false;
+            self.sh.cv.notify_all();
+            drop(g);
+            state::with(|s| {
+                s.children[ord].killed = true;
+                s.event(|| format!("kill #{ord}"));
+            });
+        }
         Ok(())
     }
 
     pub fn wait_with_output(mut self) -> io::Result<Output> {
         drop(self.stdin.take());
+        // like std: read both pipes to the end (concurrently), then reap
+        let mut stdout = vec![];
+        let mut stderr = vec![];
+        let (read_out, read_err) = (self.stdout.is_some(), self.stderr.is_some());
+        if self.wait_fault.is_none() {
+            let mut g = self.sh.m.lock().unwrap();
+            loop {
+                if read_out {
+                    stdout.extend(g.out.drain(..));
+                }
+                if read_err {
+                    stderr.extend(g.err.drain(..));
+                }
+                self.sh.cv.notify_all();
+                if g.exited && (!read_out || g.out.is_empty()) && (!read_err || g.err.is_empty()) {
+                    break;
+                }
+                g = self.sh.cv.wait(g).unwrap();
+            }
+        }
         let status = self.wait_exited()?;
-        let g = self.sh.m.lock().unwrap();
-        let stdout = if self.piped_out && self.stdout.is_some() { g.out.clone() } else { vec![] };
-        let stderr = if self.piped_err && self.stderr.is_some() { g.err.clone() } else { vec![] };
-        drop(g);
         Ok(Output { status, stdout, stderr })
     }
 }
